@@ -19,7 +19,7 @@
                   recursion depth = nesting depth (the logic half of the stack-overflow question).
    C12_path_suffix [U]: path() of an element ends with its item name (the strip_suffix(..).unwrap() of set_item_name).
    Findings (fixed in /repo, the sites are gone from Ops.v): c28d8d2, dbf2768, 8b342ea — see findings/C12-panic-*. *)
-From AV Require Import Base.Bytes Base.Outcome Hash.HashModel Spec.SpecOps Spec.SpecReal Xml.TablesOk.
+From AV Require Import Base.Bytes Base.Outcome Hash.HashModel Hash.HashRealEnum Hash.HashRealElement Spec.SpecOps Spec.SpecReal Xml.TablesOk.
 From AV Require Import Tree.Heap Tree.Ops Tree.Script Tree.Inv Tree.NoPanic.
 From AV Require Import Tree.NoPanicProofsBase Tree.NoPanicProofsDepth Tree.NoPanicProofsMain Tree.NoPanicReal.
 Open Scope N_scope.
@@ -28,6 +28,8 @@ Theorem C12_no_panic_partial :
   forall (T : tables) (tab_el tab_en : nametab) (check_fn : N -> list N -> res bool) (LATEST : N) (root_attrs : list (N * cdata)),
     tables_ok12 T = true ->
     (forall fn s, exists b, check_fn fn s = Val b) ->
+    nametab_ok tab_en = true ->
+    name_ok tab_el (name_short_name T) ->
     forall w o,
       covered_op o = true -> PanicFree T tab_el tab_en w -> op_wf tab_el tab_en w o ->
       (forall s, run_op T tab_el tab_en check_fn LATEST root_attrs o w <> Pan s) /\
@@ -36,6 +38,12 @@ Proof. exact no_panic_covered'. Qed.
 
 Theorem C12_tables_real : tables_ok12 RT = true.
 Proof. exact tables_ok12_real. Qed.
+
+Theorem C12_enum_table_real : nametab_ok Hash.HashRealEnum.tab_enum = true.
+Proof. exact en_ok_real. Qed.
+
+Theorem C12_short_name_real : name_ok Hash.HashRealElement.tab_element (name_short_name RT).
+Proof. exact short_ok_real. Qed.
 
 Theorem C12_depth_tree :
   forall (T : tables) (tab_el tab_en : nametab) w i,
